@@ -41,6 +41,14 @@ class CFG:
     exit_raise: int = 2
     fact_ast: dict[str, ast.AST] = field(default_factory=dict)
     _facts: dict[int, frozenset[Fact]] | None = None
+    scope: object | None = None  # pattern.Scope: fact texts then compare up to the names of temporaries
+
+    def _txt(self, e: ast.AST) -> str:
+        t = norm(e)
+        if self.scope is None:
+            return t
+        from .pattern import S
+        return S(t, self.scope, e)
 
     # -- construction helpers ------------------------------------------
     def new(self, kind: str, a: ast.AST | None = None, stmt: ast.stmt | None = None) -> int:
@@ -142,7 +150,7 @@ class CFG:
                     # the statement may not have completed: do not kill, do not add
                     o = cur
                 elif isinstance(lab, tuple) and lab[0] in ("T", "F"):
-                    txt = norm(lab[1])
+                    txt = self._txt(lab[1])
                     self.fact_ast.setdefault(txt, lab[1])
                     o = o | {(txt, lab[0] == "T")}
                 old = IN[v]
@@ -181,7 +189,7 @@ class CFG:
         extra = set()
         node = self.nodes[ids[0]]
         for e, pol in expr_guards(target, stop=node.ast):
-            txt = norm(e)
+            txt = self._txt(e)
             self.fact_ast.setdefault(txt, e)
             extra.add((txt, pol))
         return res | frozenset(extra)
